@@ -43,7 +43,11 @@ def run(chk: Check):
                 'scenarios.  Non-trivial = contains a read of an old item after an addition in an append session, or a '
                 'read of an item evicted from the cache')
     gen = [{'name': f'gen:{i}', 'ops': su.gen_history(chk.rng, 'C07')} for i in range(chk.n(150, 2000))]
-    su.run_property(chk, 'C07', PROPS, gen, nontrivial, scenarios=su.big_payload_scenarios(chk.rng, chk.n(3, 12)))
+    def extra(chk, cfg):
+        # reads through a cache smaller than the item read: oracle only (see store_util.oversized_read_scenarios)
+        su.check_histories(chk, su.oversized_read_scenarios(), cfg, nontrivial, label='o', model=False)
+    su.run_property(chk, 'C07', PROPS, gen, nontrivial, scenarios=su.big_payload_scenarios(chk.rng, chk.n(3, 12)),
+                    extra=extra)
 
 
 def replay(chk: Check, rp):
